@@ -37,7 +37,11 @@ def rule_total(run):
     bm = prog.func('mulgrids.mulgrid.block_mapping')
     lp = _loop_over(bm, 'geo.block_name_list')
     key = 'mulgrid.block_mapping :: every target block mapped'
-    if len(lp) != 1:
+    part = [n for n in walk_no_nested(bm.node) if isinstance(n, ast.For) and 'geo.block_name_list' in norm(n.iter)]
+    if len(lp) != 1 and len(part) == 1:
+        run.violated(key, 'the loop runs over `%s`, not the whole geo.block_name_list: some target blocks get no source' % norm(part[0].iter),
+                     where=bm.where(part[0]))
+    elif len(lp) != 1:
         run.unknown(key, 'loop over geo.block_name_list not found (a slice or another list would leave blocks unmapped)', where=bm.where())
     else:
         dest = lp[0].target.id
